@@ -43,6 +43,11 @@ def attr_hook(node, lin):
 def has_reaction_decide(test, st):
     """the main scenario of the arithmetic: both operands are real reactions (X.has_reaction() holds, the operand is neither 0 nor None)"""
     t = test
+    if st is not None and isinstance(t, ast.Name):
+        from ..resolve import path_defs
+        d = path_defs(st).get(t.id)          # a flag local: has_reaction = self.has_reaction()
+        if d is not None:
+            return has_reaction_decide(d, None)
     if isinstance(t, ast.UnaryOp) and isinstance(t.op, ast.Not):
         v = has_reaction_decide(t.operand, st)
         return None if v is None else not v
@@ -181,14 +186,23 @@ def run(ctx):
         if not formula:
             d2.fail('Reaction.' + op, 'no-formula', 'net-stoichiometry statement not found', fo, fo.node)
             continue
-        guards = set()
-        for n in fo.node.body:
-            if n is formula[0]:
-                break
-            if isinstance(n, ast.If):
-                for c in ast.walk(n.test):
-                    if isinstance(c, ast.Call) and isinstance(c.func, ast.Attribute) and c.func.attr == 'has_reaction' and isinstance(c.func.value, ast.Name):
-                        guards.add(c.func.value.id)
+        # on every path that reaches the formula, has_reaction() has been established for both operands (in whatever form it is tested)
+        from ..pathcond import resolved_conds, implied as _imp2
+        fps, _ = run_paths(fo.node, max_paths=2000)
+        guards = None
+        for p_ in fps:
+            ev_ = [e for e in p_.events if e.kind == 'assign' and e.stmt is formula[0]]
+            if not ev_:
+                continue
+            cut = p_.events.index(ev_[0])
+            rc = resolved_conds(p_, keep=set(fo.params))
+            # only the conditions evaluated before the formula count
+            n_before = sum(1 for e in p_.events[:cut] if e.kind == 'cond' and isinstance(e.stmt, (ast.If, ast.While)) and isinstance(e.value, bool))
+            rc = rc[:n_before]
+            g = {x for x in ('self', other) if _imp2(rc, lambda t, x=x: isinstance(t, ast.Call) and isinstance(t.func, ast.Attribute)
+                                                      and t.func.attr == 'has_reaction' and src(t.func.value) == x) is True}
+            guards = g if guards is None else guards & g
+        guards = guards or set()
         if {'self', other} <= guards:
             d2.ok('Reaction.' + op, 'both operands are filtered with has_reaction() before the net-stoichiometry formula', fo, formula[0])
         else:
